@@ -99,7 +99,7 @@ class FPV:
             if self.value == 0.0 or self.value != self.value:
                 # 0/0 and NaN/0 are NaN
                 return FPV(float("nan"), self.sort)
-            if str(self.value * o.value)[0] == "-":
+            if math.copysign(1.0, self.value) * math.copysign(1.0, o.value) < 0:
                 return FPV(float("-inf"), self.sort)
             return FPV(float("inf"), self.sort)
 
@@ -138,7 +138,7 @@ class FPV:
         except ZeroDivisionError:
             if o.value == 0.0 or o.value != o.value:
                 return FPV(float("nan"), self.sort)
-            if str(o.value * self.value)[0] == "-":
+            if math.copysign(1.0, o.value) * math.copysign(1.0, self.value) < 0:
                 return FPV(float("-inf"), self.sort)
             return FPV(float("inf"), self.sort)
 
